@@ -286,8 +286,15 @@ func GoTestFor(id string) func(c interface{}, sig, what string) string {
 		case cpuCase:
 			return cpuCaseGoTest(v, sig, what)
 		case progPath:
-			withE := id != "C01"
-			return progPathGoTest(v, progSeeds(withE), progAlphabet(true), sig, what)
+			if id != "C01" {
+				for _, n := range v.Syms {
+					if strings.Contains(n, "pending") {
+						return "" // interrupt symbols: replay with ./run replay
+					}
+				}
+				return progPathGoTest(v, progSeeds(true), progAlphabetInt(), sig, what)
+			}
+			return progPathGoTest(v, progSeeds(false), progAlphabet(true), sig, what)
 		case asmHistory:
 			if id == "C16" {
 				return "" // the Clone/Append scenario is replayed with ./run replay
